@@ -287,11 +287,14 @@ func cmdRun(args []string) {
 			w2 := *w
 			r2 := h.RunWorld(sc, &w2, true, false)
 			o.DetChecked++
-			if r2.Digest != ro.Digest || (r2.V == nil) != (ro.V == nil) {
+			if r2.Digest != ro.Digest && r2.RDigest == ro.RDigest {
+				o.Probes["pool_event_drift"]++ // same observable log, other pool/scheduler events: a process-wide cache at work
+			}
+			if r2.RDigest != ro.RDigest || (r2.V == nil) != (ro.V == nil) || (*recheckAll && r2.Digest != ro.Digest) {
 				// not a verdict by itself (the driver exits 2 unless a violation is confirmed in a fresh process): keep going,
 				// a tree whose results depend on state the simulator does not own may still show reproducible violations
 				if len(o.Nondet) < 3 {
-					o.Nondet = append(o.Nondet, fmt.Sprintf("nondeterministic world seed=%d idx=%d: digest %s vs %s", *seed, idx, ro.Digest, r2.Digest))
+					o.Nondet = append(o.Nondet, fmt.Sprintf("nondeterministic world seed=%d idx=%d: observable digest %s vs %s (full %s vs %s)", *seed, idx, ro.RDigest, r2.RDigest, ro.Digest, r2.Digest))
 					o.Samples = append(o.Samples, w)
 				}
 				if *recheckAll {
@@ -368,7 +371,7 @@ func cmdReplay(args []string) {
 		}
 		return
 	}
-	wantClass, wantDigest := w.Class, w.Digest
+	wantClass, wantDigest := w.Class, w.RDigest
 	rlog := raceLogPath()
 	rsize := fileSize(rlog)
 	ro := h.RunWorld(sc, w, true, *trace)
@@ -392,7 +395,7 @@ func cmdReplay(args []string) {
 	if ro.V != nil {
 		got, detail = ro.V.Class, ro.V.Detail
 	}
-	fmt.Printf("replay property=%s class=%q digest=%s\n", w.Prop, got, ro.Digest)
+	fmt.Printf("replay property=%s class=%q digest=%s\n", w.Prop, got, ro.RDigest)
 	if detail != "" {
 		fmt.Printf("detail: %s\n", detail)
 	}
@@ -402,7 +405,7 @@ func cmdReplay(args []string) {
 		fmt.Printf("REPRODUCED property=%s class=%q (recorded as %q)\n", w.Prop, got, wantClass)
 		return
 	}
-	if got != wantClass || (wantDigest != "" && ro.Digest != wantDigest) {
+	if got != wantClass || (wantDigest != "" && ro.RDigest != wantDigest) {
 		fmt.Printf("MISMATCH: file says class=%q digest=%s\n", wantClass, wantDigest)
 		os.Exit(3)
 	}
